@@ -92,11 +92,20 @@ def c23(res, thorough):
     base_cov(res, ["memory orders", "wait strategies other than backoff (they add only wake-ups)", "boost::thread_specific_ptr (thread exit is driven by resetting the kernel's TLS slot under the scheduler, so the 'removed' store is a scheduling point)",
                    "Algo/FC/Kernel: 28-pc atomic-step machine of acquire_record / publish / combine / try_combining / combining / combining_pass / compact_list (first loop) / wait_for_combining / release_record, any number of threads, compact factor and pass count; "
                    "KInv (18 clauses) proved inductive; C23_mutex, C23_exactly_once, C23_response_after_exec, C23_pending_not_executed, C23_owner_republishes are theorems about it. Simplifications: publication list as a set with atomic link/unlink, index-order walk, one pre-allocated record per thread, no thread exit / removed state / freeing loop, no batch_combine / invoke_exclusive. "
-                   "The machine is a hand model; it is tied to the code through the containers' histories (a request executed twice, never, or answered early breaks linearizability of the queue/deque/priority queue built on it), not by trace replay; "
+                   "Algo/FC/KernelR refines it with the publication list in its REAL order (pNext loads, link and unlink CAS outcomes computed from the list, fc_apply as its own step, second loop of compact_list): its 27-clause invariant and the C23R_* theorems "
+                   "(mutex, exactly once, response after execution, pending not executed, owner republishes, combiner assert) are proved on that machine directly, and THAT machine is tied to the real kernel by trace conformance (client fckernel: static records, counter container, every atomic operation on the lock, the records' words and the list links); "
+                   "the containers' histories (a request executed twice, never, or answered early breaks linearizability) are a second tie; "
                    "reclamation is decided by a quarantining allocator that checks, at the moment a publication record is freed, whether it is still reachable from the publication list"],
              partial=["liveness of a deactivated request (only the safety form and the two enabling facts are proved)", "record reclamation clause: not in the kernel model; decided by the quarantining allocator on explored schedules",
-                      "kernel model not tied by trace replay"])
-    lean_step(res, ["CdsVerif.Props.C23", "CdsVerif.Props.C23Batch", "CdsVerif.Props.C23Kernel"], thorough)
+                      "thread exit / removed state / record freeing and batch_combine are outside the machine"])
+    lean_step(res, ["CdsVerif.Props.C23", "CdsVerif.Props.C23Batch", "CdsVerif.Props.C23Kernel", "CdsVerif.Props.C23KernelR"], thorough)
+    from fckernel_pre import fckernel_pre
+    # tie A: the refined kernel machine (Algo/FC/KernelR: publication list in its real order) must accept the real kernel's traces
+    tie_A(res, "fckernel", "fckernel", [
+        {"args": ["--mode", "mixed", "--threads", "4", "--ops", "3"], "cases": 20000 if thorough else 3000},
+        {"args": ["--mode", "cas", "--threads", "4", "--ops", "3"], "cases": 8000 if thorough else 1200},
+        {"args": ["--mode", "mixed", "--threads", "2", "--ops", "4"], "cases": 4000 if thorough else 600},
+        {"args": ["--mode", "enum1", "--threads", "3", "--ops", "2"], "cases": 12 if thorough else 4}], pre=fckernel_pre)
     fcbatch.fcbatch_check(res, thorough)        # all four containers: deque, queue, stack, priority queue
     n = 12000 if thorough else 1500
     for client, variants in (("queue", ["fcqueue", "fcqueue_elim", "ifcqueue", "ifcqueue_elim"]), ("deque", ["fcdeque_std", "fcdeque_std_elim"]), ("pqueue", ["fcpq"])):
@@ -224,13 +233,19 @@ def iterable_find_prev_probe(res):
 
 
 def c13(res, thorough):
-    setmap_check(res, thorough, "C13", "list", modules=["CdsVerif.Props.C13Michael"],
+    setmap_check(res, thorough, "C13", "list", modules=["CdsVerif.Props.C13Michael", "CdsVerif.Props.C13Lazy"],
                  mnv=["MichaelList: Lean machine (Algo/Michael: search with helping, link_node with its plain stores, unlink_node with the single ignored unlink attempt) proved linearizable to Spec.map for all schedules, thread counts and keys, "
                       "hindsight cases (failed find / erase / insert) included, with chain-sorted / marked-frozen / erase-once theorems; garbage-collected heap (no node reuse: what C01/C02 provide), HP stores not modelled, weak CAS never fails spuriously; "
                       "tied by trace conformance (variant imichael_hp_named: every load / store / CAS of the head and of every node's next word, values and mark bits included, and every result)",
-                      "LazyList, IterableList, the KV forms and the RCU / nogc specialisations: no algorithm model; decided by histories judged against Spec.map"],
-                 partial=["linearizability of LazyList / IterableList and of the RCU and nogc specialisations as theorems about algorithm models: not proved; decided on explored schedules only"])
+                      "LazyList: Lean machine (Algo/Lazy: unlocked search, lock pred and cur, validate, link / mark / unlink stores, find with and without functor, update in both forms; the marking store writes head|1 so that memory forms a cycle "
+                      "while an eraser is between its two stores - modelled as coded, with a ghost logical successor) proved linearizable to Spec.map for all schedules incl. the hindsight cases of the unlocked find / contains; lock discipline, marked-frozen, erase-once; "
+                      "tied by trace conformance (variant ilazy_hp_named: next words with mark bits, node lock words, results)",
+                      "IterableList (see C19 for its machine; its histories are judged here), the KV forms and the RCU / nogc specialisations: no separate model; decided by histories judged against Spec.map"],
+                 partial=["linearizability of IterableList is false of the code (known finding: find_prev race); RCU and nogc specialisations as theorems: not proved; decided on explored schedules only"])
     iterable_find_prev_probe(res)
+    tie_A(res, "list", "lazy", [{"args": ["--mode", "mixed", "--threads", "4", "--ops", "5", "--variant", "ilazy_hp_named"], "cases": 12000 if thorough else 1500},
+                                {"args": ["--mode", "cas", "--threads", "3", "--ops", "6", "--variant", "ilazy_hp_named"], "cases": 8000 if thorough else 800},
+                                {"args": ["--mode", "enum2" if thorough else "enum1", "--threads", "2", "--ops", "3", "--variant", "ilazy_hp_named"], "cases": 10 if thorough else 4}])
     # tie A: the Lean machine whose linearizability is proved (Algo/Michael) must accept the real traces step by step
     tie_A(res, "list", "michael", [{"args": ["--mode", "mixed", "--threads", "4", "--ops", "5", "--variant", "imichael_hp_named"], "cases": 12000 if thorough else 1500},
                                    {"args": ["--mode", "mixed", "--threads", "3", "--ops", "6", "--variant", "imichael_hp_named"], "cases": 8000 if thorough else 800},
@@ -242,10 +257,21 @@ def c13(res, thorough):
 
 
 def c14(res, thorough):
-    setmap_check(res, thorough, "C14", "hashset", mixed=(4000, 50000), enum_cases=(55, 110),
-                 mnv=["locality (Base/Locality, Herlihy-Wing Theorem 1 proved for the framework's definition) and C14_table_of_linearizable_buckets: a table whose operations are routed by ANY bucket function to independent buckets is a linearizable map "
+    c14_body(res, thorough)
+    tie_A(res, "hashset", "splitlist",
+          [{"args": ["--mode", "mixed", "--threads", "4", "--ops", "5", "--variant", "isset_michael_hp_named"], "cases": 12000 if thorough else 1500},
+           {"args": ["--mode", "mixed", "--threads", "3", "--ops", "6", "--variant", "isset_michael_hp_named"], "cases": 8000 if thorough else 800},
+           {"args": ["--mode", "enum2" if thorough else "enum1", "--threads", "2", "--ops", "3", "--variant", "isset_michael_hp_named"], "cases": 10 if thorough else 4}])
+
+
+def c14_body(res, thorough):
+    setmap_check(res, thorough, "C14", "hashset", mixed=(4000, 50000), enum_cases=(55, 110), modules=["CdsVerif.Props.C14SplitList"],
+                 mnv=["SplitListSet over MichaelList with the dynamic bucket table: Lean machine (Algo/SplitList: get_bucket, recursive init_bucket with the nested insert of the dummy and its publication, the MichaelList steps started from the bucket's dummy, "
+                      "inc_item_count with the two growth CASes) proved linearizable to Spec.map for all schedules, thread counts, keys and hash functions; sorted by split order, published bucket pointers point to the linked unmarked dummy of their bucket, "
+                      "a lazily initialised child bucket sees every key of its range, growth changes no result; the split-order facts it needs are the C27 theorems (C14_cfg64_hyp instantiates them for the real 64-bit key functions); "
+                      "tied by trace conformance (hidden variant isset_michael_hp_named, three hash modes incl. a hash of SIZE_MAX)","locality (Base/Locality, Herlihy-Wing Theorem 1 proved for the framework's definition) and C14_table_of_linearizable_buckets: a table whose operations are routed by ANY bucket function to independent buckets is a linearizable map "
                       "as soon as every bucket's sub-history is; with the MichaelList machine of C13 this covers MichaelHashSet over MichaelList at the level of histories (the product machine itself is not written); "
-                      "SplitListSet (one shared list, dummy nodes, growing bucket table) and FeldmanHashSet (multi-level array) have no algorithm model",
+                      "SplitList over LazyList / IterableList, the static bucket table, the aux-node free list beyond the first segment, and FeldmanHashSet (multi-level array) have no algorithm model",
                       "the hashset client calls the *_with( key, less ) overloads in a quarter of the cases and gives split lists a colliding hash (key >> 1) in half of them"])
 
 
@@ -630,7 +656,7 @@ TABLE = {
     "C01": ("proof", c01),
     "C02": ("proof", c02),
     "C03": ("proof", c03),
-    "C23": ("translation_validation", c23),
+    "C23": ("proof", c23),
     "C06": ("translation_validation", c06),
     "C07": ("proof", c07),
     "C10": ("translation_validation", c10),
